@@ -38,6 +38,12 @@ def zip3With {α β γ δ : Type} (f : α → β → γ → δ) : List α → Li
 def delaunayContains (data queries : List (List Rat)) : List Bool :=
   convexHullMask ((data.getD 0 []).zip (data.getD 1 [])) ((queries.getD 0 []).zip (queries.getD 1 []))
 
+/-- `shape_to_spacing(region, shape)` on a region given as a plain sequence (no validity check: Python unpacks four numbers and divides). -/
+def shapeToSpacingList (region : List Rat) (shape : Nat × Nat) : Except Err (List Rat) :=
+  match region with
+  | [w, e, s, n] => (match shapeToSpacing ⟨w, e, s, n⟩ shape false with | some (sn, se) => .ok [sn, se] | none => .error .zeroDiv)
+  | _ => .error .valueError
+
 /-- Output grid lines of `project_grid`: region = bounding box of the projected data points (or the given one),
     spacing = `shape_to_spacing(region, shape)` (or the given one), then `grid_coordinates(region, spacing=…)`. -/
 def projectGridLines (pe pn : List Rat) (shape : Nat × Nat) (region : Option (List Rat)) (spacing : Option (List Rat)) :
